@@ -13,6 +13,13 @@ from .common import FIELD, MESH, REGION
 from .c01 import each, _single_return
 
 FLOOR = 30
+ANCHORS = [
+    'operators._1d_diff',
+    'operators._split_array_on_idx',
+    'operators._split_diff_combine',
+    'field.Field.diff',
+    'field.Field.pad',
+]   # functions whose code the property is anchored in (mutation analysis, evidence)
 
 
 def run(chk):
